@@ -32,7 +32,7 @@ META = {
     "design_ref": "7/C43",
     "shards": {"quick": 2, "thorough": 16},
     "budget_s": {"quick": 40, "thorough": 300},
-    "min_evals": {"quick": 20000, "thorough": 1000000},
+    "min_evals": {"quick": 20000, "thorough": 500000},
     "deciding": ["cf.direct", "cf.ops", "cf.mcm"],
     "rule": "random (start, stop, step) incl. negative steps, empty ranges, steps not dividing the range, numpy-integer bounds; "
             "random predicate vectors; G-PROG programs of depth ≤ 3; distinct = fingerprint of the case content; non-trivial = "
@@ -378,7 +378,7 @@ def run(ctx):
 
     warnings.filterwarnings("ignore")
     rng = ctx.rng
-    nd = ctx.n(40000, 2400000)
+    nd = ctx.n(40000, 1200000)
     for i in range(nd):
         if i % 256 == 0 and not ctx.more():
             break
@@ -400,13 +400,13 @@ def run(ctx):
         ctx.reject("for-step-zero")
     except Exception as e:  # noqa: BLE001
         ctx.violation("cf.direct", f"for_loop with step 0 raised {type(e).__name__}, python range raises ValueError", mech="for-step-zero")
-    npg = ctx.n(4000, 320000)
+    npg = ctx.n(4000, 160000)
     for i in range(npg):
         if i % 16 == 0 and not ctx.more():
             break
         ctx.case_index = 10_000_000 + ctx.shard * 1_000_000 + i
         program_case(ctx, qp, np.random.default_rng([ctx.seed, 43, ctx.shard, i]), i)
-    nm = ctx.n(700, 40000)
+    nm = ctx.n(700, 24000)
     for i in range(nm):
         if i % 8 == 0 and not ctx.more():
             break
